@@ -146,7 +146,11 @@ var c13 = &vh.Prop[c13Case]{
 			if err != nil {
 				return vh.Fail("C13/marshal-error", "%v", err)
 			}
-			want := vh.ExpectedJSON(c.T, "", v)
+			top := v
+			if vh.RefOmit(c.T, v) {
+				top = vh.ZeroVal(c.T) // a value that encodes to nothing stands for the zero value (-0 becomes 0)
+			}
+			want := vh.ExpectedJSON(c.T, "", top)
 			var first []byte
 			for di, d := range []*plenccodec.Descriptor{&direct, &viaPlenc, &viaJSON} {
 				var out plenccodec.JSONOutput
